@@ -159,6 +159,85 @@ def rule_stopping(repo, rep):
                   'need not be stationary' % conds)
 
 
+def _linear_in(e, name):
+  """(coefficient of self.<name>, constant) of an integer expression, or None"""
+  if isinstance(e, ast.Constant) and isinstance(e.value, int) and \
+          not isinstance(e.value, bool):
+    return (0, e.value)
+  if ast.unparse(e) in ('self.' + name, name):
+    return (1, 0)
+  if isinstance(e, ast.BinOp) and isinstance(e.op, (ast.Add, ast.Sub)):
+    a, b = _linear_in(e.left, name), _linear_in(e.right, name)
+    if a is None or b is None:
+      return None
+    sg = 1 if isinstance(e.op, ast.Add) else -1
+    return (a[0] + sg * b[0], a[1] + sg * b[1])
+  return None
+
+
+def rule_n_iter(repo, rep):
+  R = 'R-FORM:lsml-n-iter-reports-exhaustion'
+  rep.rule(R, '"stopped before max_iter" is read off n_iter_: when the main '
+           'loop runs out without a break, the stored n_iter_ equals max_iter '
+           '(loop variable at exhaustion plus the offset of the store), so '
+           'n_iter_ < max_iter only after a stopping criterion fired')
+  f = repo.get_func('lsml._BaseLSML._fit')
+  key = 'lsml._BaseLSML._fit:n_iter_'
+  if f is None:
+    rep.unknown(R, key, '', 'function vanished')
+    return
+  stores = [n for n in ast.walk(f.node) if isinstance(n, ast.Assign) and
+            ast.unparse(n.targets[0]) == 'self.n_iter_']
+  loops = [n for n in ast.walk(f.node) if isinstance(n, ast.For) and
+           'max_iter' in ast.unparse(n.iter)]
+  if len(loops) != 1 or not stores:
+    rep.unknown(R, key, site(f), 'main loop / store of n_iter_ not found')
+    return
+  lp = loops[0]
+  it = lp.iter
+  if not (isinstance(it, ast.Call) and ast.unparse(it.func) == 'range' and
+          1 <= len(it.args) <= 2 and isinstance(lp.target, ast.Name)):
+    rep.unknown(R, key, site(f, lp), 'loop header %s' % ast.unparse(it))
+    return
+  stop = _linear_in(it.args[-1], 'max_iter')
+  if stop is None or stop[0] != 1:
+    rep.unknown(R, key, site(f, lp), 'loop bound %s' % ast.unparse(
+        it.args[-1]))
+    return
+  for st in stores:
+    if any(st in list(ast.walk(x)) for x in ast.walk(lp)
+           if isinstance(x, (ast.If,))):
+      continue            # a store under a condition inside the loop
+    v = st.value
+    # value in terms of the loop variable
+    var = lp.target.id
+
+    def lin_var(e):
+      if isinstance(e, ast.Name) and e.id == var:
+        return (1, 0)
+      if isinstance(e, ast.Constant) and isinstance(e.value, int):
+        return (0, e.value)
+      if isinstance(e, ast.BinOp) and isinstance(e.op, (ast.Add, ast.Sub)):
+        a, b = lin_var(e.left), lin_var(e.right)
+        if a is None or b is None:
+          return None
+        sg = 1 if isinstance(e.op, ast.Add) else -1
+        return (a[0] + sg * b[0], a[1] + sg * b[1])
+      return None
+    lv = lin_var(v)
+    if lv is None or lv[0] != 1:
+      rep.unknown(R, key, site(f, st), 'n_iter_ = %s' % ast.unparse(v))
+      continue
+    at_exhaustion = stop[1] - 1 + lv[1]      # offset relative to max_iter
+    if at_exhaustion == 0:
+      rep.derived(R, key, site(f, st))
+    else:
+      rep.refuted(R, key, site(f, st), 'when the loop %s runs out, n_iter_ = '
+                  '%s is max_iter%+d: an exhausted run reports n_iter_ < '
+                  'max_iter, i.e. "stopped early", without being stationary'
+                  % (ast.unparse(it), ast.unparse(v), at_exhaustion))
+
+
 def rule_spd_floor(repo, rep):
   R = 'R-FORM:lsml-spd-floor'
   rep.rule(R, 'every candidate metric is V Diag(max(w, eps)) V^T with '
@@ -870,6 +949,7 @@ def rule_all_steps_tried(repo, rep):
 def check(repo, rep, tier):
   rule_acceptance(repo, rep)
   rule_stopping(repo, rep)
+  rule_n_iter(repo, rep)
   rule_spd_floor(repo, rep)
   rule_loss_gradient_inputs(repo, rep)
   # loss, regulariser and gradient are decided as values by interpretation
@@ -890,6 +970,10 @@ def check(repo, rep, tier):
                     if not (':d(' in o['construct'] or
                             o['construct'].endswith(':violations'))]
   rule_all_steps_tried(repo, rep)
+  # "the prior is returned / the objective is never larger than at the
+  # prior" presupposes that the prior handed to the solver is intact
+  from . import c20b
+  c20b.rule_no_destructive_option(repo, rep)
   # the caller's weights are not modified (FRESH rule of C17, LSML only)
   before = len(rep.obs)
   c17.rule_writes(repo, rep)
